@@ -78,11 +78,15 @@ class Topo:
     def addr(self, link, side):
         return "10.%d.%d.%d" % (self.net, link, 1 if side == "l" else 2)
 
-    def router_addr(self, k):  # address of router k facing the client
-        return self.addr(k - 1, "r")
+    def addr6(self, link, side):
+        import ipaddress
+        return ipaddress.ip_address("fd00:%x:%x::%d" % (self.net, link, 1 if side == "l" else 2)).compressed
 
-    def dest_addr(self):
-        return self.addr(self.n, "r")
+    def router_addr(self, k, v6=False):  # address of router k facing the client
+        return self.addr6(k - 1, "r") if v6 else self.addr(k - 1, "r")
+
+    def dest_addr(self, v6=False):
+        return self.addr6(self.n, "r") if v6 else self.addr(self.n, "r")
 
     def ns(self, i, cmd, check=True, timeout=30):
         return sh("ip netns exec %s %s" % (self.names[i], cmd), check=check, timeout=timeout)
@@ -92,7 +96,8 @@ class Topo:
             for nm in self.names:
                 sh("ip netns add " + nm)
                 sh("ip netns exec %s ip link set lo up" % nm)
-                for k in ("net.ipv4.icmp_ratelimit=0", "net.ipv4.conf.all.rp_filter=0", "net.ipv4.conf.default.rp_filter=0", "net.ipv4.icmp_msgs_per_sec=10000", "net.ipv4.icmp_msgs_burst=10000"):
+                for k in ("net.ipv4.icmp_ratelimit=0", "net.ipv4.conf.all.rp_filter=0", "net.ipv4.conf.default.rp_filter=0", "net.ipv4.icmp_msgs_per_sec=10000", "net.ipv4.icmp_msgs_burst=10000",
+                          "net.ipv6.icmp.ratelimit=0", "net.ipv6.conf.all.disable_ipv6=0", "net.ipv6.conf.default.disable_ipv6=0", "net.ipv6.conf.all.accept_dad=0", "net.ipv6.conf.default.accept_dad=0"):
                     sh("ip netns exec %s sysctl -qw %s" % (nm, k), check=False)
             for link in range(self.n + 1):
                 a, b = self.names[link], self.names[link + 1]
@@ -102,6 +107,8 @@ class Topo:
                 sh("ip netns exec %s ip addr add %s/24 dev %s" % (b, self.addr(link, "r"), lb))
                 sh("ip netns exec %s ip link set %s up" % (a, la))
                 sh("ip netns exec %s ip link set %s up" % (b, lb))
+                sh("ip netns exec %s ip -6 addr add %s/64 dev %s nodad" % (a, self.addr6(link, "l"), la), check=False)
+                sh("ip netns exec %s ip -6 addr add %s/64 dev %s nodad" % (b, self.addr6(link, "r"), lb), check=False)
             # routing
             self.ns(0, "ip route add default via %s" % self.addr(0, "r"))
             for k in range(1, self.n + 1):
@@ -110,13 +117,23 @@ class Topo:
                 for j in range(0, k - 1):
                     self.ns(k, "ip route add 10.%d.%d.0/24 via %s" % (self.net, j, self.addr(k - 1, "l")))
             self.ns(self.n + 1, "ip route add default via %s" % self.addr(self.n, "l"))
+            # the same chain over IPv6
+            self.ns(0, "ip -6 route add default via %s" % self.addr6(0, "r"), check=False)
+            for k in range(1, self.n + 1):
+                self.ns(k, "sysctl -qw net.ipv6.conf.all.forwarding=1", check=False)
+                self.ns(k, "ip -6 route add default via %s" % self.addr6(k, "r"), check=False)
+                for j in range(0, k - 1):
+                    self.ns(k, "ip -6 route add fd00:%x:%x::/64 via %s" % (self.net, j, self.addr6(k - 1, "l")), check=False)
+            self.ns(self.n + 1, "ip -6 route add default via %s" % self.addr6(self.n, "l"), check=False)
             for k in self.spec.get("silent", []):
                 if 1 <= k <= self.n:
                     # suppress only the router's own (locally generated) traffic towards the client
                     self.ns(k, "ip rule add iif lo to 10.%d.0.0/24 blackhole" % self.net)
+                    self.ns(k, "ip -6 rule add iif lo to fd00:%x:0::/64 blackhole" % self.net, check=False)
             if self.spec.get("dest_filtered"):
                 # the destination silently drops everything it would send back (a filtering firewall): no reply of any kind
                 self.ns(self.n + 1, "ip route add blackhole 10.%d.0.0/24" % self.net)
+                self.ns(self.n + 1, "ip -6 route add blackhole fd00:%x:0::/64" % self.net, check=False)
             if self.spec.get("tcp_sack_off"):
                 self.ns(self.n + 1, "sysctl -qw net.ipv4.tcp_sack=0")
             if self.spec.get("port_open"):
@@ -128,6 +145,7 @@ class Topo:
                     raise Infra("listener did not start")
             # warm up ARP along the path
             self.ns(0, "python3 -c \"import socket;s=socket.socket(socket.AF_INET,socket.SOCK_DGRAM);[s.sendto(b'x',('%s',9)) for _ in range(3)]\"" % self.dest_addr(), check=False)
+            self.ns(0, "python3 -c \"import socket;s=socket.socket(socket.AF_INET6,socket.SOCK_DGRAM);[s.sendto(b'x',('%s',9)) for _ in range(3)]\"" % self.dest_addr(True), check=False)
             time.sleep(0.3)
         except Infra:
             raise
@@ -146,10 +164,13 @@ class Topo:
             sh("ip netns del " + nm, check=False)
 
     def trace(self, proto, method, max_ttl, queries, e2e, timeout_ms):
-        cmd = [CLI, "--proto", proto, "--max-ttl", str(max_ttl), "--timeout", str(timeout_ms), "-q", str(queries), "-Q", str(e2e), "--port", str(self.spec["port"])]
+        v6 = proto.endswith("6")
+        cmd = [CLI, "--proto", proto.rstrip("6"), "--max-ttl", str(max_ttl), "--timeout", str(timeout_ms), "-q", str(queries), "-Q", str(e2e), "--port", str(self.spec["port"])]
         if proto == "tcp":
             cmd += ["--tcp-method", method]
-        cmd.append(self.dest_addr())
+        if v6:
+            cmd.append("--ipv6")
+        cmd.append(self.dest_addr(v6))
         t0 = time.time()
         env = dict(os.environ, GORACE="halt_on_error=1 exitcode=66")
         p = subprocess.run(["ip", "netns", "exec", self.names[0]] + cmd, stdout=subprocess.PIPE, stderr=subprocess.PIPE, text=True, timeout=180, env=env)
@@ -163,16 +184,16 @@ class Topo:
                 "race": "WARNING: DATA RACE" in p.stderr or p.returncode == 66, "race_report": p.stderr[:2500] if "DATA RACE" in p.stderr else ""}
 
 
-def expected_hops(t, max_ttl):
+def expected_hops(t, max_ttl, v6=False):
     hops = []
     silent = set(t.spec.get("silent", []))
     for k in range(1, t.n + 1):
         if k > max_ttl:
             break
-        hops.append(None if k in silent else t.router_addr(k))
+        hops.append(None if k in silent else t.router_addr(k, v6))
     reached = max_ttl >= t.n + 1 and not t.spec.get("dest_filtered")
     if reached:
-        hops.append(t.dest_addr())
+        hops.append(t.dest_addr(v6))
     elif t.spec.get("dest_filtered"):
         hops += [None] * (max_ttl - len(hops))
     return hops, reached
@@ -197,7 +218,8 @@ def check_result(t, proto, method, max_ttl, queries, e2e, res):
         bad.append("CLI failed (rc=%s): %s" % (res["rc"], res["stderr"][-600:]))
         return bad
     doc = res["doc"]
-    want, reached = expected_hops(t, max_ttl)
+    v6 = proto.endswith("6")
+    want, reached = expected_hops(t, max_ttl, v6)
     runs = doc["traceroute"]["runs"] or []
     if len(runs) != queries:
         bad.append("%d runs in the document, %d requested" % (len(runs), queries))
@@ -211,8 +233,8 @@ def check_result(t, proto, method, max_ttl, queries, e2e, res):
                 bad.append("negative RTT %s" % h)
             if bool(h.get("ip_address")) != bool(h.get("reachable")):
                 bad.append("reachable flag inconsistent: %s" % h)
-        if run["destination"]["ip_address"] != t.dest_addr():
-            bad.append("destination %s != %s" % (run["destination"]["ip_address"], t.dest_addr()))
+        if run["destination"]["ip_address"] != t.dest_addr(v6):
+            bad.append("destination %s != %s" % (run["destination"]["ip_address"], t.dest_addr(v6)))
     rtts = doc["e2e_probe"]["rtts"] or []
     if len(rtts) != e2e:
         bad.append("%d e2e samples, %d requested" % (len(rtts), e2e))
@@ -231,7 +253,7 @@ def gen_spec(rng, idx):
     spec = {"routers": n, "port": rng.choice([80, 443, 8080, 33434]), "port_open": rng.random() < 0.6, "tcp_sack_off": rng.random() < 0.25,
             "silent": sorted(rng.sample(range(1, n + 1), rng.choice([0, 0, 1, 1, 2]) if n >= 2 else 0)) if n >= 2 else [],
             "max_ttl_delta": rng.choice([-1, 0, 1, 1, 2, 3]), "queries": rng.choice([1, 1, 2, 3]), "e2e": rng.choice([0, 1, 3]),
-            "protos": rng.sample(["icmp", "udp", "tcp:syn", "tcp:sack", "tcp:prefer_sack"], rng.choice([3, 4, 5])), "timeout_ms": rng.choice([300, 500]),
+            "protos": rng.sample(["icmp", "udp", "tcp:syn", "tcp:sack", "tcp:prefer_sack", "icmp6", "udp6"], rng.choice([3, 4, 5, 6])), "timeout_ms": rng.choice([300, 500]),
             "concurrent_cli": rng.random() < 0.3}
     if spec["tcp_sack_off"]:
         spec["port_open"] = True
@@ -338,7 +360,7 @@ def main():
         specs = [gen_spec(rng, i) for i in range(n)]
         # always include the fixed regression shapes
         specs[0] = {"routers": 3, "port": 443, "port_open": True, "tcp_sack_off": False, "silent": [2], "max_ttl_delta": 1, "queries": 2, "e2e": 2,
-                    "protos": ["icmp", "udp", "tcp:syn", "tcp:sack", "tcp:prefer_sack"], "timeout_ms": 500, "concurrent_cli": False}
+                    "protos": ["icmp", "udp", "tcp:syn", "tcp:sack", "tcp:prefer_sack", "icmp6", "udp6"], "timeout_ms": 500, "concurrent_cli": False}
         if len(specs) > 1:
             specs[1] = {"routers": 2, "port": 8080, "port_open": True, "tcp_sack_off": True, "silent": [], "max_ttl_delta": 0, "queries": 1, "e2e": 1,
                         "protos": ["tcp:sack", "tcp:prefer_sack", "tcp:syn", "udp"], "timeout_ms": 400, "concurrent_cli": True}
@@ -381,7 +403,7 @@ def main():
     stats = {"prop": PROP, "name": "C13KernelRace" if RACE else "C13Kernel", "evaluations": evals, "distinct_nontrivial": distinct, "hashes": [], "extra_distinct": distinct,
              "labels": {}, "samples": [{"spec": r["spec"], "results": [{k: rr[k] for k in ("proto", "method", "max_ttl", "rc", "hops")} for rr in r["results"]]} for r in results[:3]],
              "rule": "generated topologies (seeded): chains of 1..6 network-namespace routers joined by veth pairs with the kernel's own forwarding/ICMP/TCP, destination with open / closed / SACK-disabled port, a subset of routers with their own ICMP suppressed, max-ttl below/at/above the path length, 1..3 runs and 0..3 e2e probes per invocation, several CLI processes at once; each (topology, protocol/method) CLI invocation of the binary built from the working tree is one evaluation; oracle = the topology itself (router chain then destination, silent routers as empty hops, RTT >= 0, e2e answered iff the destination is within max-ttl, sack fails / prefer_sack falls back when the target cannot do SACK); non-trivial = >= 2 routers and (a silent router, or a closed / SACK-disabled port, or > 1 concurrent run); distinct by (topology spec, protocol)",
-             "assumptions": ["real kernel and real time in the loop (timeouts 300-500 ms); IPv4 only; first TTL is fixed at 1 by the CLI", "a mismatch counts only if it repeats in 3 of 3 attempts on the same topology (transient packet loss/latency on a shared machine is not a property violation); retried invocations are counted under label_counts"], "exhaustive": False, "excluded_known": 0, "known_findings_seen": [], "violations": len(failing)}
+             "assumptions": ["real kernel and real time in the loop (timeouts 300-500 ms); IPv4 for every method, IPv6 for icmp and udp; first TTL is fixed at 1 by the CLI", "a mismatch counts only if it repeats in 3 of 3 attempts on the same topology (transient packet loss/latency on a shared machine is not a property violation); retried invocations are counted under label_counts"], "exhaustive": False, "excluded_known": 0, "known_findings_seen": [], "violations": len(failing)}
     for r in results:
         for rr in r["results"]:
             k = "proto:%s/%s" % (rr["proto"], rr["method"])
